@@ -70,6 +70,13 @@ static void lst_make_sequence(vp_rng_t* r, int mode, uint64_t idx, seq_t* s)
         case 12: name = "crf-subtype-aaf-size-mismatch"; n = build_aaf(r, b, 0, 5); b[0] = 0x04; break;
         default: name = "crf-then-aaf"; n = build_crf(r, b, (uint8_t)d, base); break;
         }
+        if ((idx % 14) == 13 && nd >= 3) {      /* a hole in the media clock (one CRF packet lost), then an AAF timestamp on the clock grid behind the hole */
+            name = "crf-hole-then-aaf-on-grid";
+            uint64_t P = 125000ull, holes = 200 + vp_rng_below(r, 400);
+            if (d == 0) n = build_crf(r, b, 0, base);
+            else if (d == 1) n = build_crf(r, b, 2, base + holes * P);
+            else n = build_aaf(r, b, (uint8_t)d, (uint32_t)((base + (holes + vp_rng_below(r, 300)) * P - (d == 3 ? P * vp_rng_below(r, 100) : 0)) & 0xffffffffu));
+        }
         seq_add(s, b, n);
     }
     (void)mode;
